@@ -203,7 +203,7 @@ pub fn generate(seed: u64, prop: &str, thorough: bool) -> Plan {
                 frag: rng.next_u64(),
                 cut: if rng.chance(10) { Some(rng.range(1, 999) as u32) } else { None },
             }),
-            6 => Step::H(HOp::CasGet { which: rng.weighted(&[70, 15, 15]), idx: rng.below(16) }),
+            6 => Step::H(HOp::CasGet { which: rng.weighted(&[50, 15, 15, 20]), idx: rng.below(16) }),
             7 => Step::H(HOp::Import {
                 kind: rng.weighted(&[44, 12, 12, 8, 12, 12]),
                 topic: topic(&mut rng),
@@ -305,6 +305,7 @@ pub struct Exec4 {
     /// content-before-frame monitor: active while an HTTP request is being served
     cas_watch: std::sync::Arc<std::sync::atomic::AtomicBool>,
     cas_failures: std::sync::Arc<std::sync::Mutex<Vec<String>>>,
+    prop: String,
     /// when set, HTTP connections are served by this store instead of the model-tracked one (C20's import target)
     alt_store: Option<xs::store::Store>,
     kill_check: bool,
@@ -364,6 +365,7 @@ impl Exec4 {
             cas_failures,
             alt_store: None,
             kill_check: plan.kill_check,
+            prop: plan.prop.clone(),
             stall_rng: Rng::new(plan.stall_seed),
             img_no: 0,
         })
@@ -747,7 +749,10 @@ impl Exec4 {
                     Outcome::Cut => {
                         // a request cut before it was complete changes nothing
                         let _ = before_log;
-                        self.check_store_vs_model(&format!("{} [client disconnected mid-request]", what)).map_err(|e| reclass(e, "http/effect-after-disconnect"))?;
+                        // (C10: a frame stored for an upload that never arrived in full reports a hash
+                        // whose content is not what the client wrote)
+                        let class = if self.prop == "C10" { "cas/truncated-upload-stored" } else { "http/effect-after-disconnect" };
+                        self.check_store_vs_model(&format!("{} [client disconnected mid-request]", what)).map_err(|e| reclass(e, class))?;
                     }
                     Outcome::Dropped(why) => {
                         let _ = meta_panic;
@@ -979,6 +984,21 @@ impl Exec4 {
                         let (h, b) = &self.cas_known[idx % self.cas_known.len()];
                         (format!("/cas/{}", h), Some(b.clone()))
                     }
+                    3 => {
+                        // content of the body pool: looked up before and after it is written
+                        // (through whichever entry point writes it)
+                        let b = body_pool(*idx);
+                        let h = ssri::Integrity::from(&b[..]);
+                        if b.is_empty() {
+                            (format!("/cas/{}", ssri::Integrity::from(format!("never-written-{}", idx).as_bytes())), None)
+                        } else if self.cas_known.iter().any(|(k, _)| *k == h) {
+                            self.ex.w.probe("cas:get-pool-written");
+                            (format!("/cas/{}", h), Some(b))
+                        } else {
+                            self.ex.w.probe("cas:get-pool-before-write");
+                            (format!("/cas/{}", h), None)
+                        }
+                    }
                     2 => {
                         // malformed digests: foreign characters, right alphabet but undecodable
                         // (length, padding), truncated real hash, empty digest, unknown algorithm
@@ -1009,7 +1029,9 @@ impl Exec4 {
                 match self.request(&req, 0, None, false, false)? {
                     Outcome::Resp(r) => match known {
                         Some(b) => {
-                            self.expect_status(&what, &r, &[200], "http/status")?;
+                            // (C10: content that was written must be returned by its hash)
+                            let class = if self.prop == "C10" { "cas/written-content-not-served" } else { "http/status" };
+                            self.expect_status(&what, &r, &[200], class)?;
                             if r.body != b {
                                 return violation("cas/content-mismatch", format!("{}: GET {} returned {} bytes, {} were written", what, target, r.body.len(), b.len()));
                             }
@@ -1019,6 +1041,12 @@ impl Exec4 {
                             if malformed {
                                 if !(400..500).contains(&r.status) {
                                     return violation("http/status", format!("{}: status {} for GET {} (a malformed digest is a client error)", what, r.status, target));
+                                }
+                            } else if *which == 3 && r.status == 200 {
+                                // the bytes may be in the CAS through a request that failed after
+                                // writing its content; then they must be exactly these bytes
+                                if r.body != body_pool(*idx) {
+                                    return violation("cas/content-mismatch", format!("{}: GET {} returned {} bytes that are not the content with that hash", what, target, r.body.len()));
                                 }
                             } else if r.status < 400 {
                                 return violation("http/status", format!("{}: status {} for content that was never written", what, r.status));
